@@ -9,6 +9,7 @@ import (
 	"verif/harness/props/c05"
 	"verif/harness/props/c06"
 	"verif/harness/props/c17"
+	"verif/harness/props/c18"
 )
 
 func Specs() map[string]*core.Spec {
@@ -20,6 +21,7 @@ func Specs() map[string]*core.Spec {
 		c05.Spec(),
 		c06.Spec(),
 		c17.Spec(),
+		c18.Spec(),
 	} {
 		m[s.ID] = s
 	}
